@@ -26,6 +26,10 @@ class ev(Event):
     pass
 
 
+class orphan(Event):
+    """An event nobody has a handler for (a legal leaf of a causal tree)."""
+
+
 def _walk(events, fn, parent=None):
     for e in events:
         fn(e, parent)
@@ -47,6 +51,11 @@ def _number(spec):
         e['id'] = c[0]
         if parent is None or e['complete']:
             e['cancel'] = False
+        if e.get('orphan'):
+            if parent is None or e['complete']:
+                e['orphan'] = False          # roots and completion-requesting events keep their handlers
+            else:
+                e['handlers'] = [{'kind': 'plain', 'fire': [], 'steps': []}]   # never run: nobody handles an orphan
         for h in e['handlers']:
             for s in h.get('steps', []):
                 if isinstance(s, dict):
@@ -70,6 +79,7 @@ def _ev_strategy(depth, root=False):
             'complete': complete,
             'cchan': st.sampled_from([None, None, None, 'x']),
             'cancel': st.sampled_from([False, False, False, True]),
+            'orphan': st.sampled_from([False] * 7 + [True]),
             'handlers': st.lists(handler_s(children, child), min_size=1, max_size=SLOTS),
         })
 
@@ -112,7 +122,7 @@ class C05(Prop):
         log = []
 
         def make(es):
-            e = ev(es)
+            e = orphan(es) if es.get('orphan') else ev(es)
             if es['complete']:
                 e.complete = True
                 if es['cchan']:
@@ -242,6 +252,10 @@ class C05(Prop):
                     return bad('cancelled-dispatched', 'event %d was cancelled before dispatch but a handler ran' % eid)
                 continue
             hs = especs[eid]['handlers']
+            if especs[eid].get('orphan'):
+                if any(l[0] == 'hstart' and l[1] == eid for l in log):
+                    return bad('orphan-handled', 'event %d has no handler but one ran' % eid)
+                continue
             should = []
             for i, h in enumerate(hs):
                 should.append(i)
@@ -292,7 +306,7 @@ class C05(Prop):
                 if x in cancelled or fired.get(x) in ('step', 'call'):
                     abnormal = True
                 kinds = [h['kind'] for h in especs[x]['handlers']]
-                if x not in cancelled and any(k in ('raise', 'stop', 'genraise') for k in kinds):
+                if x not in cancelled and not especs[x].get('orphan') and any(k in ('raise', 'stop', 'genraise') for k in kinds):
                     abnormal = True
             if len(cl) >= 3 and abnormal:
                 nontrivial = True
@@ -300,6 +314,8 @@ class C05(Prop):
             classes.append('cancelled-descendant')
         if any(v == 'step' for v in fired.values()):
             classes.append('fired-from-generator-step')
+        if any(especs[e].get('orphan') for e in fired):
+            classes.append('handler-less-event-in-closure')
         if any(v == 'call' for v in fired.values()):
             classes.append('called-from-generator-step')
         if any(especs[e]['complete'] and parent[e] is not None for e in fired):
